@@ -22,6 +22,9 @@ pub assume_specification<'a>[<String as core::convert::From<&'a str>>::from](s: 
 pub assume_specification<T, A: std::alloc::Allocator>[<Vec<T, A> as core::convert::AsMut<Vec<T, A>>>::as_mut](v: &mut Vec<T, A>) -> (r: &mut Vec<T, A>)
     ensures *r == *old(v), *final(v) == *final(r);
 
+pub assume_specification<T> [<[T]>::reverse] (s: &mut [T])
+    ensures final(s)@ == old(s)@.reverse();
+
 // ---- assumed specifications of std items that vstd does not cover (listed in evidence) ----
 pub assume_specification<T: std::cmp::Ord>[std::cmp::max](a: T, b: T) -> (r: T)
     ensures T::obeys_cmp_spec() ==> r == (if a.cmp_spec(&b) == Ordering::Greater { a } else { b });
